@@ -33,9 +33,13 @@ async def debounced_sorted_prefix(
     buffer: list[T] = []
     debouncer = Debouncer(debounce_seconds, max_window_seconds)
     merged = merge_generators(inner, debouncer.aiter())
+    # Set only when the sorted burst has been handed to the flush below: the
+    # debouncer's own flag flips before its sentinel reaches this loop.
+    flushed = False
 
     async for item in merged:
         if item == "__COMPLETE__":
+            flushed = True
             buffer.sort(key=key)
             for buffered_item in buffer:
                 yield buffered_item
@@ -43,7 +47,7 @@ async def debounced_sorted_prefix(
         else:
             # item is T after checking != "__COMPLETE__"
             actual_item = cast(T, item)
-            if debouncer.is_complete:
+            if flushed:
                 yield actual_item
             else:
                 debouncer.extend_window()
